@@ -405,7 +405,41 @@ def selector(F):
                        "and the single parts are mislabelled" % (
                            b.path, "a residual derivative as the ideal-gas part" if res0 else "no residual derivative as the residual part"))
     r.floor("callers of State::contributions", ncall, 6)
-    r.floor("selector obligations", len(r.instances), 15)
+    # --- selector forwarding: a function that takes a contribution selector hands exactly that selector to every inner
+    #     call that accepts one (c_p(IdealGas) must not be assembled from Total parts)
+    nfw = 0
+    for b in F.bodies:
+        sel = [l for l in range(1, b["arg_count"] + 1) if (b.lty(l) or {}).get("s", "").endswith("state::Contributions")]
+        env = None
+        if not sel and b.is_closure():
+            pb = F.body(b.d.get("parent")) if b.d.get("parent") else None
+            if pb is not None and any((pb.lty(l) or {}).get("s", "").endswith("state::Contributions") for l in range(1, pb["arg_count"] + 1)):
+                env = 1
+        if not sel and env is None:
+            continue
+        defs = None
+        for bi, t in b.calls():
+            for a in t["args"]:
+                ty = b.opty(a)
+                if not ty or not ty["s"].endswith("state::Contributions"):
+                    continue
+                defs = defs or Defs(b)
+                nfw += 1
+                ok = False
+                if a.get("k") in ("copy", "move"):
+                    roots = value_roots(b, defs, a["place"])
+                    ok = bool(roots) and all((x in sel) or (env is not None and x == env) for x in roots)
+                fn = b.path.split("::{closure")[0].split("::")[-1]
+                iid = "selector|forward|%s->%s" % (fn, callee(t)[2])
+                if ok:
+                    r.inst(iid, t["span"], "ok")
+                else:
+                    r.inst(iid, t["span"], "violation")
+                    r.fail(iid, t["span"],
+                           "%s takes a contribution selector but calls `%s` with a different (fixed) selector: the part returned for "
+                           "IdealGas / Residual is assembled from another contribution and Total = IdealGas + Residual fails for it" % (b.path, callee(t)[2]))
+    r.floor("inner selector arguments in selector-taking functions", nfw, 40)
+    r.floor("selector obligations", len(r.instances), 55)
     r.exhaustive = True
     return r
 
